@@ -351,3 +351,56 @@ Proof.
   intros HA HB Heq. apply (has_rank_unique B); [|now apply rank_correct].
   apply (has_rank_row_equiv A B); [assumption..|now apply rank_correct].
 Qed.
+
+(** * [startcol > 0] (used by nobody important; only the cheap facts)
+    Shape and well-formedness are preserved for every [startcol]; nothing happens when
+    [startcol >= ncols].  For [0 < startcol < ncols] the first pivot row is row [startcol] and the
+    row additions are masked to the columns >= the pivot column (mzd_row_add_offset) although the
+    rows need not vanish before it, so the row space of the WHOLE matrix is in general not
+    preserved ([gauss_startcol_changes_rowspace]): the specification of that mode speaks about the
+    column window [startcol, ncols) only and is not needed for C02. *)
+Lemma gauss_step_wf full M s c : wf M ->
+  wf (fst (gauss_step full (M, s) c)) /\ nr (fst (gauss_step full (M, s) c)) = nr M /\
+  nc (fst (gauss_step full (M, s) c)) = nc M.
+Proof.
+  intros HM. unfold gauss_step. destruct (find_row_from (rows M) 0 s c) as [j|]; cbn [fst].
+  - split; [now apply wf_eliminate, wf_row_swap|]. split; reflexivity.
+  - now split.
+Qed.
+
+Lemma gauss_fold_wf full cols : forall M s, wf M ->
+  wf (fst (fold_left (gauss_step full) cols (M, s))) /\
+  nr (fst (fold_left (gauss_step full) cols (M, s))) = nr M /\
+  nc (fst (fold_left (gauss_step full) cols (M, s))) = nc M.
+Proof.
+  induction cols as [|c cols IH]; intros M s HM; cbn [fold_left]; [now split|].
+  destruct (gauss_step_wf full M s c HM) as [H1 [H2 H3]].
+  destruct (gauss_step full (M, s) c) as [M1 s1]. cbn [fst] in *.
+  destruct (IH M1 s1 H1) as [H4 [H5 H6]]. split; [assumption|]. split; congruence.
+Qed.
+
+Lemma gauss_startcol_wf full startcol A : wf A ->
+  wf (snd (gauss_delayed full startcol A)) /\
+  nr (snd (gauss_delayed full startcol A)) = nr A /\ nc (snd (gauss_delayed full startcol A)) = nc A.
+Proof.
+  intros HA. unfold gauss_delayed.
+  pose proof (gauss_fold_wf full (seq startcol (nc A - startcol)) A startcol HA) as H.
+  destruct (fold_left (gauss_step full) (seq startcol (nc A - startcol)) (A, startcol)) as [M sr].
+  exact H.
+Qed.
+
+Lemma gauss_startcol_ge full startcol A : nc A <= startcol -> gauss_delayed full startcol A = (0, A).
+Proof.
+  intros H. unfold gauss_delayed. replace (nc A - startcol) with 0 by lia. cbn [seq fold_left].
+  now rewrite Nat.sub_diag.
+Qed.
+
+Lemma gauss_startcol_changes_rowspace :
+  exists A, wf A /\ ~ row_equiv A (snd (gauss_delayed false 1 A)).
+Proof.
+  exists (mk 3 2 [0; 3; 2]%N).
+  assert (HA : wf (mk 3 2 [0; 3; 2]%N)) by (apply wfb_spec; vm_compute; reflexivity).
+  split; [assumption|]. intros Heq.
+  apply rank_row_equiv in Heq; [vm_compute in Heq; discriminate|assumption|].
+  apply wfb_spec. vm_compute. reflexivity.
+Qed.
